@@ -154,7 +154,8 @@ PROPS["C11"] = dict(
     prefix="c11_",
     overlays=[("palette", "vk_c11.rs"), ("parse", "vk_c11p.rs")],
     per_harness={r"c11_._new_palette_from_.*": dict(mem_gb=12, timeout=1500), r"c11_t_legacy_11_.*": dict(mem_gb=12, timeout=2400),
-                 r"c11_._.*0011.*": dict(mem_gb=12, timeout=1500)},
+                 r"c11_._.*0011.*": dict(mem_gb=12, timeout=1500),
+                 r"c11_t_legacy_then_new_palette_real_maps": dict(mem_gb=16, timeout=3000)},
     bounds="new-format chunks of 2 entries at first index 0 / 254 with symbolic flags, RGBA and a 1-byte name; legacy chunks of "
            "2 packets (2 + 1 colours) at concrete skip pairs (0,3) (1,2) (2,1) (0,0) with symbolic components; all 6-bit values; "
            "2 indexed pixels against a 3-entry sparse palette; both chunk orders for precedence",
@@ -167,7 +168,7 @@ PROPS["C06"] = dict(
     overlays=[("pixel", "vk_c06x.rs"), ("cel", "vk_c06.rs"), ("file", "vk_c02.rs"), ("file", "vk_c06f.rs")],
     per_harness={
         r"c06_._cel_image_.*": dict(mem_gb=12, recursion={r"file::AsepriteFile::write_cel": 2}, timeout=1500),
-        r"c06_._(rgba|gray)_.*": dict(mem_gb=14, timeout=1500),
+        r"c06_._(rgba|gray)_.*": dict(mem_gb=14, timeout=3000),
     },
     extra_harnesses=dict(quick=["c02_q_raw_cel_2x2_2x1"], thorough=["c02_q_raw_cel_2x2_1x2"]),
     jobs_quick=6,
@@ -253,7 +254,7 @@ PROPS["C19"] = dict(
 
 PROPS["C07"] = dict(
     prefix="c07_",
-    per_harness={r"c06_._(rgba|gray)_.*": dict(mem_gb=14, timeout=1500)},
+    per_harness={r"c06_._(rgba|gray)_.*": dict(mem_gb=14, timeout=3000)},
     overlays=[("parse", "vk_c07.rs"), ("parse", "vk_c11p.rs"), ("parse", "vk_c15p.rs"), ("parse", "vk_c01p.rs"), ("file", "vk_c02.rs"), ("pixel", "vk_c06x.rs")],
     extra_harnesses=dict(
         quick=["c11_q_new_palette_then_legacy", "c11_q_legacy_then_new_palette", "c15_q_header_pixel_ratio_and_depth",
